@@ -19,7 +19,11 @@ def replay(job):
     names = ["a%d.txt" % k for k in range(1, n + 1)]
     # a third of the projects configure their files through globs that match exactly one file each (a removed file then is an unmatched glob)
     keys = [("a%d.tx?" % (k + 1)) if seed % 3 == 0 else names[k] for k in range(n)]
-    entries = [(keys[k], RAWS[:case["pats"][k]]) for k in range(n)]
+    # in a quarter of the v2 projects the LAST file carries partial patterns only, which this bump (same year) leaves unchanged: it still has to be found and matched
+    partial_last = case["engine"] == "v2" and seed % 4 == 1
+    PART = (["(c) YYYY", "since YYYY -", "year=YYYY"], ["(c) 2021", "since 2021 -", "year=2021"], ["(c) ", "since ", "year="])
+    raws_of = lambda k: (PART[0] if (partial_last and k == n - 1) else RAWS)[:case["pats"][k]]
+    entries = [(keys[k], raws_of(k)) for k in range(n)]
     cfg_pos = rng.randrange(0, n + 1)
     fault = case["fault"]
     with drive.scratch_dir("c06") as d:
@@ -39,7 +43,9 @@ def replay(job):
                 continue
             lines = ["# file %d" % (k + 1)]
             for j in range(case["pats"][k]):
-                if fault["kind"] == "nomatch" and fault["k"] == k + 1 and fault["j"] == j + 1:
+                if partial_last and k == n - 1:
+                    lines += [PART[2][j] + "none here"] if (fault["kind"] == "nomatch" and fault["k"] == k + 1 and fault["j"] == j + 1) else [PART[1][j]] * rng.choice([1, 2])
+                elif fault["kind"] == "nomatch" and fault["k"] == k + 1 and fault["j"] == j + 1:
                     lines.append(["ver=", "pep=", "rel "][j] + "none here")
                 else:
                     # a matching pattern may occur on several lines (what counts is that every PATTERN is found, not how many matches there are)
@@ -52,7 +58,7 @@ def replay(job):
             fv = fakevcs.FakeVCS(os.path.join(d, "fake"))
             fv.set(tags=[], status="", remote="", branches="")
             env = fv.env()
-        before = proj.snapshot()
+        before = proj.snapshot(with_mtime=True)
         # a fifth of the runs with -v / -vv (with -vv `update` prints the diff like --dry and then goes on)
         args = ["update"] + ([["-v"], ["-vv"]][seed % 2] if seed % 5 == 0 else []) + ["--no-fetch"] + (["--dry"] if case["dry"] else [])
         if fault["kind"] == "gate":
@@ -60,7 +66,7 @@ def replay(job):
         else:
             args += ["--date", "2021-03-09"]
         r = drive.cli(args, cwd=proj.root, env=env)
-        after = proj.snapshot()
+        after = proj.snapshot(with_mtime=True)        # bytes and mtime: a file rewritten with the same bytes (a partial pattern the bump leaves unchanged) counts as written
         log = fv.log() if fv else []
     changed = [k + 1 for k, name in enumerate(names) if before.get(name) != after.get(name)]
     other = any(before.get(p) != after.get(p) for p in set(before) | set(after) if p not in names and p != "bumpver.toml")
